@@ -1177,6 +1177,96 @@ val drain_ok : nat -> body -> bool
 
 val drain : nat -> body -> body
 
+type sev =
+| SData of bytes
+| SIntr
+
+val strip : sev list -> bytes list
+
+val count_intr : sev list -> nat
+
+type 's eres =
+| EOk of bytes * 's
+| EErr of ioerr * 's
+| EIntr of 's
+
+val emap : ('a1 -> 'a2) -> 'a1 eres -> 'a2 eres
+
+type src_e = { bbuf_e : bytes; lo_e : bytes; evs_e : sev list; sfuel_e : 
+               nat; stake_e : n option }
+
+val mk_src_e : bytes -> sev list -> src_e
+
+val mk_src_take_e : bytes -> sev list -> n -> src_e
+
+val stream_read_e : n -> sev list -> sev list eres
+
+val inner_read_e : n -> bytes -> sev list -> (bytes * sev list) eres
+
+val take_read_e : n -> src_e -> ((bytes * sev list) * n option) eres
+
+val with_tail : src_e -> bytes -> ((bytes * sev list) * n option) -> src_e
+
+val fill_buf_e : src_e -> src_e eres
+
+val consume_e : n -> src_e -> src_e
+
+val buf_read_e : n -> src_e -> src_e eres
+
+val read_exact_loop_e : nat -> n -> src_e -> bytes -> (bytes * src_e) option
+
+val read_exact_e : n -> src_e -> (bytes * src_e) option
+
+val read_until_lf_e : nat -> src_e -> bytes -> bytes * src_e
+
+val read_line_e : src_e -> (bytes, ioerr) sum * src_e
+
+type fixed_e = { f_src_e : src_e; f_remaining_e : n }
+
+val fixed_read_e : n -> fixed_e -> fixed_e eres
+
+val fixed_fill_buf_e : fixed_e -> fixed_e eres
+
+val fixed_consume_e : n -> fixed_e -> fixed_e
+
+type chunked_e = { c_src_e : src_e; c_state_e : cstate; c_remaining_e : n }
+
+val read_chunk_size_e : chunked_e -> chunked_e rres0
+
+val trailer_loop_e : nat -> src_e -> ioerr option * src_e
+
+val advance_e : nat -> chunked_e -> chunked_e rres0
+
+val adv_fuel_e : chunked_e -> nat
+
+val chunked_read_loop_e : nat -> n -> chunked_e -> bytes -> chunked_e eres
+
+val chunked_read_e : n -> chunked_e -> chunked_e eres
+
+val chunked_fill_buf_e : chunked_e -> chunked_e eres
+
+val chunked_consume_e : n -> chunked_e -> chunked_e
+
+type body_e =
+| BFixed_e of fixed_e
+| BChunked_e of chunked_e
+| BEof_e of src_e
+| BEmpty_e of src_e
+
+val new_fixed_e : bytes -> sev list -> n -> body_e
+
+val new_chunked_e : bytes -> sev list -> body_e
+
+val body_read_e : n -> body_e -> body_e eres
+
+val body_fill_buf_e : body_e -> body_e eres
+
+val body_consume_e : n -> body_e -> body_e
+
+val read_all_e : body_e -> n list -> bytes -> (bytes * outcome) * body_e
+
+val bufread_all_e : body_e -> n list -> bytes -> (bytes * outcome) * body_e
+
 val hexdig : byte -> bool
 
 val hexdig_val : byte -> n
